@@ -787,6 +787,7 @@ func famCodec(dir string, seed int64, tier string) {
 	}
 
 	apiHugeBlob(repDec)
+	apiFilterOverFaults(repDec)
 	apiEncodeBesideUnmarshal(repEnc)
 	apiSinkMarshalFaults(repWf)
 	apiEndedStreamsAndSinkMarshal(repEnc, r)
